@@ -184,6 +184,31 @@ def run_reuse(chk, spec):
 			return
 		judge_table(chk, spec, b.value, text)
 		return
+	if spec["between"] == "digit-limit-changed":
+		# "an int if int() accepts its stripped text" is decided when the file is read: the same text read again after the interpreter's int-to-str digit
+		# limit changed is judged by the limit in force then (nothing remembered from the first read may answer)
+		import sys
+		old = sys.get_int_max_str_digits()
+		try:
+			for limit in spec["limits"]:
+				sys.set_int_max_str_digits(limit)
+				b = call(serif.read_csv, io.StringIO(text, newline=""), **kw)
+				if not b.ok:
+					sys.set_int_max_str_digits(old)
+					chk.fail("read_csv reads every well-formed file", f"csv/raises/digit-limit-{limit}/{type(b.exc).__name__}", f"a file with a {spec['digits']}-digit cell under int digit limit {limit} raised {type(b.exc).__name__}")
+					return
+				names_, cols_ = b.value.column_names(), [list(c._underlying) for c in b.value.cols()]
+				exp_ = [[cell_rule(row[c]) if c < len(row) else None for row in spec["grid"]] for c in range(spec["ncols"])]
+				bad = [(ci, ri) for ci in range(len(exp_)) for ri in range(len(exp_[ci])) if ci < len(cols_) and ri < len(cols_[ci]) and (type(cols_[ci][ri]) is not type(exp_[ci][ri]) or (cols_[ci][ri] != exp_[ci][ri] and not (cols_[ci][ri] != cols_[ci][ri])))]
+				if bad or len(cols_) != len(exp_):
+					ci, ri = bad[0] if bad else (0, 0)
+					sys.set_int_max_str_digits(old)
+					chk.fail("each cell is an int if int() accepts its stripped text, else a float if float() does", f"csv/cell-rule/after-digit-limit-change/{'lowered' if limit and limit < old else 'restored'}",
+						f"limits {spec['limits']!r}, now {limit}: cell ({ri}, {ci}) of {spec['digits']} digits is a {type(cols_[ci][ri]).__name__}, the rule gives a {type(exp_[ci][ri]).__name__}")
+					return
+		finally:
+			sys.set_int_max_str_digits(old)
+		return
 	if spec["via"] == "fileobj" and spec["between"] == "after-a-headerless-read-with-a-longer-record":
 		# an unrelated earlier header-less read whose LATER record is longer than its first one (undefined input) must not change what this read returns
 		k = spec["ncols"]
@@ -233,10 +258,12 @@ def run_reuse(chk, spec):
 				return
 			first = a.value
 			snap_first = M.snap_table(first) if isinstance(first, Table) else None
-			if spec["between"] == "edit-result" and isinstance(first, Table) and len(first) and first.cols():
-				call(first.__setitem__, (0, 0), first.cols()[0]._underlying[-1])
+			if spec["between"] == "edit-result" and isinstance(first, Table) and first.cols():
+				if len(first):
+					call(first.__setitem__, (0, 0), first.cols()[0]._underlying[-1])
+					call(lambda: first.cols()[-1].__setitem__(0, None))
 				call(first.rename_column, first.column_names()[0], "renamed_by_caller")
-				call(lambda: first.cols()[-1].__setitem__(0, None))
+				call(setattr, first.cols()[-1], "name", "renamed_through_the_column")
 			elif spec["between"] == "rewrite-file":
 				st = os.stat(path)
 				g = [list(r) for r in spec["grid"]]
@@ -313,3 +340,22 @@ def run(chk):
 		spec["between"] = rng.choice(["nothing", "edit-result", "rewrite-file"]) if spec["via"] == "path" else rng.choice(["seek0", "preamble", "rejected-call-first", "realfile-preamble", "realfile-partly-iterated", "after-a-headerless-read-with-a-longer-record"])
 		spec["bad_delimiter"] = rng.choice([";;", "", "ab"])
 		chk.case("reuse", spec, "csv-reuse")
+	# header-only files read twice (the first result renamed by the caller in between), by path and by handle
+	for hdr in (["id", "name"], ["a"], ["x", "x"], ["Total $", ""]):
+		for via, between in (("path", "edit-result"), ("path", "nothing"), ("fileobj", "seek0")):
+			for delim in (",", ";"):
+				chk.case("reuse", {"op": "csv", "header": hdr, "grid": [], "delimiter": delim, "has_header": True, "ncols": len(hdr), "via": via, "between": between, "pattern": "header-only", "bad_delimiter": ";;"}, "csv-reuse-header-only")
+	# the same long digit string read under different int-to-str digit limits
+	for digits, limits in ((900, [640, 4300]), (900, [4300, 640, 4300]), (5000, [0, 4300]), (700, [640, 0])):
+		big = "9" * digits
+		chk.case("reuse", {"op": "csv", "header": ["a", "b"], "grid": [[big, "1"], ["2", big], ["x", "3"]], "delimiter": ",", "has_header": True, "ncols": 2, "via": "fileobj", "between": "digit-limit-changed", "limits": limits, "digits": digits, "pattern": "digit-limit"}, "csv-reuse-digit-limit")
+	# header cells that are themselves spelled like default names
+	for hdr in (["col_1", "col_0"], ["col_2", "city", "zip"], ["col_1", "col_1", "col_0"], ["col_0", "col_2", "col_1"], ["col_3", "a", "col_1", "b"]):
+		grid = [[f"r{r}c{c}" for c in range(len(hdr))] for r in range(2)]
+		for via in ("fileobj", "path"):
+			chk.case("csv", {"op": "csv", "header": hdr, "grid": grid, "delimiter": ",", "has_header": True, "ncols": len(hdr), "via": via, "pattern": "default-name-lookalikes"}, "csv-default-name-lookalikes")
+			chk.case("csv", {"op": "csv", "header": hdr, "grid": [], "delimiter": ",", "has_header": True, "ncols": len(hdr), "via": via, "pattern": "header-only"}, "csv-default-name-lookalikes")
+	# more records than any batch size, a column that is blank for the first several thousand of them
+	for nrows, first_value_at in ((5000, 4200), (9000, 8200), (4097, 4096)):
+		grid = [["" if r < first_value_at else str(r), "s" if r % 2 else "", str(r)] for r in range(nrows)]
+		chk.case("csv", {"op": "csv", "header": ["late", "half", "n"], "grid": grid, "delimiter": ",", "has_header": True, "ncols": 3, "via": "fileobj", "pattern": "long"}, "csv-long-late-values")
